@@ -10,3 +10,4 @@ import NbioVerif.Properties.C11
 #print axioms OwnC.c11_conn_close_releases
 #print axioms OwnW.c11_ws_ownership
 #print axioms OwnW.c11_ws_close_releases
+#print axioms OwnW.c11_ws_queued_payload_live
